@@ -101,23 +101,72 @@ func ruleResetBeforeAppend(c *Ctx, r *Rule) {
 		// locate the ForEach call statement in the top-level statement list
 		forEachIdx := -1
 		var closure *ast.FuncLit
-		for i, st := range fd.Body.List {
-			ast.Inspect(st, func(n ast.Node) bool {
-				call, ok := n.(*ast.CallExpr)
-				if !ok {
-					return true
-				}
-				sel, ok := call.Fun.(*ast.SelectorExpr)
-				if !ok || sel.Sel.Name != "ForEach" || len(call.Args) != 1 {
-					return true
-				}
-				if tv, ok := p.TypesInfo.Types[sel.X]; ok && typeIs(tv.Type, pipelinePkg, "Batch") {
-					if fl, ok := call.Args[0].(*ast.FuncLit); ok && forEachIdx < 0 {
-						forEachIdx, closure = i, fl
+		find := func() {
+			for i, st := range fd.Body.List {
+				ast.Inspect(st, func(n ast.Node) bool {
+					call, ok := n.(*ast.CallExpr)
+					if !ok {
+						return true
 					}
-				}
-				return true
-			})
+					sel, ok := call.Fun.(*ast.SelectorExpr)
+					if !ok || sel.Sel.Name != "ForEach" || len(call.Args) != 1 {
+						return true
+					}
+					if tv, ok := p.TypesInfo.Types[sel.X]; ok && typeIs(tv.Type, pipelinePkg, "Batch") {
+						if fl, ok := call.Args[0].(*ast.FuncLit); ok && forEachIdx < 0 {
+							forEachIdx, closure = i, fl
+						}
+					}
+					return true
+				})
+			}
+		}
+		find()
+		if forEachIdx < 0 {
+			// the encoding half may live in a helper of the same package that is handed the batch
+			// (`n := p.encodeBatch(data, batch)`): the reset / iterate discipline is then checked there
+			var helper *ast.FuncDecl
+			for _, st := range fd.Body.List {
+				ast.Inspect(st, func(n ast.Node) bool {
+					call, ok := n.(*ast.CallExpr)
+					if !ok || helper != nil {
+						return true
+					}
+					takesBatch := false
+					for _, a := range call.Args {
+						if tv, ok := p.TypesInfo.Types[a]; ok && typeIs(tv.Type, pipelinePkg, "Batch") {
+							takesBatch = true
+						}
+					}
+					if !takesBatch {
+						return true
+					}
+					var id *ast.Ident
+					switch f := call.Fun.(type) {
+					case *ast.Ident:
+						id = f
+					case *ast.SelectorExpr:
+						id = f.Sel
+					}
+					if id == nil {
+						return true
+					}
+					if obj, ok := p.TypesInfo.Uses[id].(*types.Func); ok && obj.Pkg() == p.Types {
+						for _, f := range p.Syntax {
+							for _, d := range f.Decls {
+								if hd, ok := d.(*ast.FuncDecl); ok && p.TypesInfo.Defs[hd.Name] == obj && hd.Body != nil {
+									helper = hd
+								}
+							}
+						}
+					}
+					return true
+				})
+			}
+			if helper != nil {
+				fd = helper
+				find()
+			}
 		}
 		if forEachIdx < 0 {
 			r.Ob(false, name+"|foreach", fn.Pos(), "the send function does not iterate the batch through Batch.ForEach with a literal callback")
